@@ -13,6 +13,7 @@ f (round 3)  the default continuation parameter of a family consists of free coo
 d-cache (round 3)  the generate() key contains the options whole (C20.b re-filed)
 e (round 4)  the configuration keeps the user's component order and the parameter getter reads it in that order; a step / target wider than the number of components must be rejected (known finding);
    d: options chain create_problem + to_backend_inputs
+f (round 5)  the real _instantiate is interpreted (model seed carrying its own constructor); members receive the seed's correction configuration (known finding)
 """
 from __future__ import annotations
 
@@ -739,12 +740,16 @@ def _f_members(chk):
     # to_domain: member period = aux period (after the inherited seed period)
     made.clear()
 
-    def instantiate2(dom, rep):
-        o = SymObj(None, {"period": sp.Symbol("T_seed")}, f"orbit{len(made)}")
+    # the REAL _instantiate is interpreted (the seed is a model orbit that carries its own constructor), so that whatever the interface does with
+    # periods between instantiation and hand-over - in either method - is seen
+    def orbit_ctor(*a, **k):
+        o = SymObj(None, {"period": None, "initial_state": k.get("initial_state"), "libration_point": k.get("libration_point")}, f"orbit{len(made)}")
         made.append(o)
         return o
 
-    iface2 = SymObj(ClassRef(mod, cls), {"_instantiate": instantiate2}, "iface")
+    seed = SymObj(None, {"period": sp.Symbol("T_seed"), "libration_point": sp.Symbol("LP"), "__class__": orbit_ctor, "correction_config": sp.Symbol("SEED_CORRECTION_CONFIG"),
+                         "_correction_config": sp.Symbol("SEED_CORRECTION_CONFIG")}, "seed orbit")
+    iface2 = SymObj(ClassRef(mod, cls), {}, "iface")
     outputs = SymObj(None, {"family_repr": [sp.Symbol("F0"), sp.Symbol("F1"), sp.Symbol("F2")],
                             "info": {"accepted_count": 3, "rejected_count": 1, "iterations": 3, "parameter_values": (1, 2, 3),
                                      "aux": ({"period": sp.Symbol("Tm1", positive=True)}, {"period": sp.Symbol("Tm2", positive=True)})}}, "outputs")
@@ -761,13 +766,20 @@ def _f_members(chk):
     # _from_mapping is a classmethod: override by qualname
     ipx.overrides["ContinuationDomainPayload._from_mapping"] = payload
     ipx.overrides["_from_mapping"] = payload
-    prob2 = SymObj(None, {"initial_solution": sp.Symbol("SEED")}, "problem")
+    prob2 = SymObj(None, {"initial_solution": seed}, "problem")
     ipx.apply(ipx.getattr(iface2, "to_domain"), [outputs], {"problem": prob2})
     chk.count("functions partially evaluated")
     ok = len(made) == 2 and made[0].attrs["period"] == sp.Symbol("Tm1", positive=True) and made[1].attrs["period"] == sp.Symbol("Tm2", positive=True)
     chk.check(ok, "C13.f", f"{IF}::_OrbitContinuationInterface.to_domain[period]",
               f"family members do not carry the period of their own correction: {[m.attrs['period'] for m in made]}", sample="member i period = aux[i-1]['period']")
+    # ... and is corrected by the scheme the seed was corrected with: a member instantiated from the orbit CLASS alone falls back to the class's default correction
+    # configuration - none at all for a GenericOrbit (every member "fails", the exception is swallowed and counted as a rejected correction), the default
+    # controls for a halo whose seed was corrected with other controls (members snap back onto the seed)
+    cfgs = [m.attrs.get("correction_config", m.attrs.get("_correction_config")) for m in made]
+    chk.check(bool(made) and all(c == sp.Symbol("SEED_CORRECTION_CONFIG") for c in cfgs), "C13.f", f"{IF}::_OrbitContinuationInterface._instantiate[correction scheme]",
+              f"members are instantiated with correction configuration {cfgs} (None = the class default), not the seed's: they are not corrected under the constraints the "
+              f"seed satisfies", sample="member.correction_config = seed.correction_config")
     fam = cap.get("family")
-    chk.check(fam is not None and len(fam) == 3 and fam[0] == sp.Symbol("SEED") and cap.get("accepted_count") == 3 and cap.get("rejected_count") == 1
+    chk.check(fam is not None and len(fam) == 3 and fam[0] is seed and cap.get("accepted_count") == 3 and cap.get("rejected_count") == 1
               and cap.get("iterations") == 3, "C13.b", f"{IF}::_OrbitContinuationInterface.to_domain[counts]",
               "reported counts / family are not those of the backend response", sample="accepted/rejected/iterations copied from info; family = (seed, members...)")
